@@ -270,6 +270,13 @@ def acquire_facts(f) -> dict:
     return facts
 
 
+def kwarg_of(call: ast.Call, name: str):
+    for k in call.keywords:
+        if k.arg == name:
+            return k.value
+    return None
+
+
 def rule_takeover(ctx, rule):
     """Forced take-over of a stale lock in acquire():
 
@@ -388,6 +395,21 @@ def rule_takeover(ctx, rule):
         ok = bool(upd) and all(g.dominated_by(n, [], ne_edges) for n in upd)
         ctx.check(ok, rule, f.short, "remembered-mtime-updated-with-restart",
                   message="the remembered st_mtime is not updated together with the restart of the observation", how="`remembered = current` under the same edge")
+        # what is watched is the lock itself: a symlink lock must not be stat-ed through the link (os.stat follows it to
+        # the journal file, whose mtime does not change when the lock changes hands - a second waiter's timer would keep
+        # running across a take-over and it would remove the first waiter's fresh lock)
+        creates_symlink = any(dotted(c.func) == "os.symlink" for n in g.stmt_nodes() for c in n.calls())
+        if creates_symlink:
+            for n in g.stmt_nodes():
+                for c in n.calls():
+                    if dotted(c.func) in ("os.stat", "os.lstat") and c.args and "_lock_file" in norm(c.args[0]):
+                        fs = kwarg_of(c, "follow_symlinks")
+                        own = dotted(c.func) == "os.lstat" or (isinstance(fs, ast.Constant) and fs.value is False)
+                        ctx.check(own, rule, f.short, "observes-the-lock-not-its-target",
+                                  message=f"{cls.name}.acquire reads the age of its symlink lock with `{norm(c)[:50]}`, which follows the link to the journal file: the "
+                                          f"observed mtime is the journal's, so a lock that was taken over by another waiter looks unchanged and is removed again at once "
+                                          f"(two holders after any stale-lock take-over with two waiters)",
+                                  how="os.lstat(...) / follow_symlinks=False on the lock path", where=where(f, c))
         # the lock is looked at again in every iteration before staleness is judged
         stat_nodes = [n for n in g.stmt_nodes() if any(dotted(c.func) in ("os.stat", "os.lstat") and c.args and "_lock_file" in norm(c.args[0]) for c in n.calls())]
         for h in heads:
